@@ -21,6 +21,7 @@ func init() {
 			"K5 no lost wake-up: each decrease of reserved / change of curSize / delete from running is followed by runJobs / Signal before the unlock; FIFO head-of-line rule in runJobs; a waiter is queued only after the capacity test was crossed since the last acquisition of the mutex (test and enqueue are one critical section); every return after a cond.Wait() passes the wake-up on (explicit or deferred Signal/Broadcast), " +
 			"K6 the acquisition order of the four local semaphores is the same on every path. " +
 			"K7 with the state assumed Running the insertion into MaxJobsSemaphore.running is reachable in the method RemoteJobManager.reattach calls (re-attached running jobs are counted). " +
+			"K8 a fractional reservation is scaled to the semaphore's unit before it is rounded (no float->integer conversion multiplied by a constant afterwards). " +
 			"NOT decided: arithmetic of UpdateFreeUsed, curSize<=maxSize through UpdateSize, progress of the run loop.",
 		Assumptions: commonAssumptions,
 	}
